@@ -1,5 +1,9 @@
 #!/bin/sh
-# builds nothing that the checks do not rebuild themselves; warms caches only
+# Warms caches only: every check regenerates its Verus input from /repo and rebuilds the replay/Kani artefacts it needs.
 cd /verif || exit 1
 mkdir -p out evidence .cache
+export CARGO_NET_OFFLINE=true
+# replay binary (path-depends on /repo/rscel)
+cp -f /repo/Cargo.lock /verif/replay/Cargo.lock 2>/dev/null
+(cd /verif/replay && CARGO_TARGET_DIR=/verif/.cache/replay-target cargo build --offline >/verif/out/setup-replay.log 2>&1) || echo "setup: replay build failed (checks rebuild it on demand)"
 exit 0
